@@ -30,6 +30,13 @@ Layers (DESIGN.md section 3 / 5-C11):
      output are projected to one placeholder code (asdrive.codes_projected), the
      rest of the line is judged by the same R clauses against the map learned
      from the AS-only FileAnonymizer with the same salt.
+  7. list independence under collisions: 60-120 numbers of ONE block (the
+     1024-number private block; the low 16-bit public range) chosen so that
+     several of them share a replacement under the salt (observed on
+     single-number anonymizers; birthday bound), then the same numbers through
+     list anonymizers in ascending / descending / shuffled order, through two
+     different overlapping lists and through FileAnonymizer - every answer must
+     be the single-number anonymizer's (asMap[salt][n]).
 Every recorded call is an event judged by TLC against the R part of
 spec/AsNum.tla via spec/AsNumTrace.tla; nothing is decided in Python.
 """
@@ -570,6 +577,85 @@ def gen_nosalt(r, thorough):
     return traces
 
 
+def observed_singles(salt, nums):
+    """steering only: what an anonymizer built for the number ALONE answers (real code, no md5 assumption)"""
+    out = {}
+    for n in nums:
+        try:
+            out[n] = D.construct("class", [n], salt).anonymize(n)
+        except Exception:
+            out[n] = None
+    return out
+
+
+def gen_collisions(r, thorough, stats):
+    """Many listed numbers of one block, several of which share their replacement under the salt: the answers
+    of list anonymizers (any order, any other members) must be those of single-number anonymizers."""
+    traces = []
+    salts = [("demo", "demoSalt")] + SALTS[1:4] + ([SALTS[0], SALTS[4], ("random", "c%x" % r.getrandbits(40))] if thorough else [])
+    blocks = [("b1-private", 64512, 65535, 90 if not thorough else 120, 8), ("b0-low-public", 1, 2001, 60 if not thorough else 100, 5)]
+    for slabel, salt in salts:
+        for bname, lo, hi, size, ngroups in blocks:
+            pool = [str(v) for v in range(lo, hi)]
+            obs = observed_singles(salt, pool)
+            groups = {}
+            for n in pool:
+                if obs[n] is not None:
+                    groups.setdefault(obs[n], []).append(n)
+            coll = [g for g in groups.values() if len(g) > 1]
+            r.shuffle(coll)
+            chosen = []
+            for g in coll[:ngroups]:
+                chosen += g[:3]
+            rest = [n for n in pool if n not in set(chosen)]
+            r.shuffle(rest)
+            chosen = chosen + rest[:max(0, size - len(chosen))]
+            cset = set(chosen)
+            shared = {n for g in groups.values() if len([m for m in g if m in cset]) > 1 for n in g if n in cset}
+            npairs = sum(k * (k - 1) // 2 for k in (len([m for m in g if m in cset]) for g in groups.values()))
+            stats.append({"salt": slabel, "block": bname, "listed": len(chosen), "colliding_pairs_observed": npairs,
+                          "pool_groups_with_shared_replacement": len(coll)})
+            lab = "block=%s salt=%s" % (bname, slabel)
+
+            def nl(n, situation):
+                return "n=%s %s %s %s" % (nlabel(n), situation,
+                                          "replacement-shared-with-another-listed-number" if n in shared else "replacement-unshared", lab)
+            asc = sorted(chosen, key=int)
+            shuf = chosen[:]
+            r.shuffle(shuf)
+            t = T("collisions", block=bname, salt_class=slabel, colliding_pairs=npairs)
+            t.seg("here")
+            for k, n in enumerate(asc):
+                t.new(1000 + k, "class", salt, [n], "single-number anonymizer (reference) " + lab)
+                t.anon(1000 + k, [n], labels=[nl(n, "single-number anonymizer")])
+            for i, (oname, lst) in enumerate((("ascending", asc), ("descending", asc[::-1]), ("shuffled", shuf))):
+                t.new(1 + i, "class", salt, lst, "list of %d same-block numbers order=%s %s" % (len(lst) // 10 * 10, oname, lab))
+                t.anon(1 + i, lst[::-1], labels=[nl(n, "list anonymizer order=%s" % oname) for n in lst[::-1]])
+            # two different lists that overlap in the colliding numbers
+            sh = sorted(shared, key=int)
+            half = len(asc) // 2
+            la = list(dict.fromkeys(sh + asc[:half]))
+            lb = list(dict.fromkeys(asc[half:] + sh[::-1]))
+            for i, (oname, lst) in enumerate((("first-half+shared", la), ("second-half+shared-reversed", lb))):
+                t.new(10 + i, "class", salt, lst, "overlapping list %s %s" % (oname, lab))
+                t.anon(10 + i, lst, labels=[nl(n, "overlapping list %s" % oname) for n in lst])
+            # FileAnonymizer: its own name space; singles for the shared numbers, then both orders
+            probe = (sh[:12] + [n for n in asc if n not in shared][:6]) or asc[:8]
+            for k, n in enumerate(probe):
+                t.new(2000 + k, "file", salt, [n], "single-number FileAnonymizer (reference) " + lab)
+                t.line(2000 + k, "router bgp " + n + "\n", "form=config " + nl(n, "single-number FileAnonymizer") + " api=file")
+            for i, (oname, lst) in enumerate((("ascending", asc), ("descending", asc[::-1]))):
+                t.new(20 + i, "file", salt, lst, "FileAnonymizer list order=%s %s" % (oname, lab))
+                for n in probe:
+                    t.line(20 + i, " neighbor x remote-as " + n + "\n", "form=config " + nl(n, "FileAnonymizer list order=%s" % oname) + " api=file")
+            if thorough:
+                t.seg(("child", "random"))
+                t.new(30, "class", salt, shuf[::-1], "fresh process, shuffled-reversed list " + lab)
+                t.anon(30, asc, labels=[nl(n, "fresh process list anonymizer") for n in asc])
+            traces.append(t)
+    return traces
+
+
 IP_FORMS = [
     ("rewritten-v4 neighbor", "neighbor {a} remote-as {n}\n"),
     ("rewritten-v4 indented", " neighbor {b} remote-as {n}\n"),
@@ -798,7 +884,7 @@ def mc_cfg(kind, maxlen=0, maxlist=1, numlen=1, invariants=("MImpliesR", "RDeter
 
 
 REPL_DEVS = ["SizePlusOne", "BoundaryLe", "ModNextBegin", "NoBlockOffset"]
-SCAN_DEVS = ["NoLookbehind", "NoLookahead", "AtomicAlternation", "FirstMatchOnly"]
+SCAN_DEVS = ["NoLookbehind", "NoLookahead", "AtomicAlternation", "FirstMatchOnly", "AvoidCollisions"]
 
 
 def start_models(thorough):
@@ -846,6 +932,9 @@ def finish_models(ck, ex, jobs):
 
 
 # --------------------------------------------------------------------------
+COLLISION_STATS = []
+
+
 def build_traces(pid, tier):
     thorough = tier == "thorough"
     traces = []
@@ -855,6 +944,8 @@ def build_traces(pid, tier):
     traces += gen_lines(rng(pid, "lines"), thorough)
     traces += gen_nosalt(rng(pid, "nosalt"), thorough)
     traces += gen_with_ip(rng(pid, "with-ip"), thorough)
+    COLLISION_STATS[:] = []
+    traces += gen_collisions(rng(pid, "collisions"), thorough, COLLISION_STATS)
     traces += gen_special(rng(pid, "special"), thorough)
     traces += gen_bulk(rng(pid, "bulk"), thorough)
     return traces
@@ -910,7 +1001,7 @@ def run(pid, tier):
                     if t.family in ("boundary-x-hash", "predicted-salt"):
                         residues.add(pl)
                         ck.count((t.family, pl))
-                    elif t.family in ("functional", "generated-salt"):
+                    elif t.family in ("functional", "generated-salt", "collisions"):
                         ck.count((t.family, pl))
                     else:
                         ck.count(None)
@@ -920,6 +1011,10 @@ def run(pid, tier):
                 if lab.startswith("form=context"):
                     contexts.add(lab.split(" list=")[0])
     ck.notes["traces_by_family"] = fam
+    ck.notes["collision_lists"] = COLLISION_STATS
+    if COLLISION_STATS and not any(c["colliding_pairs_observed"] for c in COLLISION_STATS):
+        ck.drift.append("no two numbers of a block share a replacement under any salt (the implementation is injective per block): "
+                        "the list-independence family ran without collisions")
     ck.notes["number_replacement_pairs_judged"] = pairs
     ck.notes["line_events_judged"] = lines
     ck.notes["boundary_x_hash_classes"] = len(residues)
